@@ -49,6 +49,68 @@ type geo struct {
 	files []int       // ordinal -> index in tor.Files (non-padding files, including empty ones)
 	ord   map[int]int // index in tor.Files -> ordinal
 	fo    [][]int     // piece -> ordinals of the (non-empty, non-padding) files it overlaps, in write order
+	zero  [][2]int64  // all-zero data ranges of the content (zero layouts)
+}
+
+// zeroPieces lists the pieces whose whole content is zero.
+func (g *geo) zeroPieces() []int {
+	out := []int{}
+	for p := 0; p < g.tor.NumPieces; p++ {
+		z := true
+		for _, x := range g.tor.PieceData(p) {
+			if x != 0 {
+				z = false
+				break
+			}
+		}
+		if z {
+			out = append(out, p)
+		}
+	}
+	return out
+}
+
+// plant writes a pre-existing copy of data file o before the client runs: "good" (the content), "stale" (full
+// length, every byte different from the content and not zero), "patch" (the content, but every all-zero range
+// holds other bytes), "short" (first half of a stale copy).
+func (g *geo) plant(dataDir string, o int, kind string, rng *rand.Rand) error {
+	fi := g.files[o]
+	want := g.tor.FileData(fi)
+	b := append([]byte(nil), want...)
+	junk := func(i int) {
+		x := byte(1 + rng.Intn(255))
+		if x == want[i] {
+			x ^= 0x5a
+			if x == 0 {
+				x = 0x33
+			}
+		}
+		b[i] = x
+	}
+	switch kind {
+	case "good":
+	case "stale", "short":
+		for i := range b {
+			junk(i)
+		}
+		if kind == "short" {
+			b = b[:len(b)/2]
+		}
+	case "patch":
+		fs := g.tor.FileStart(fi)
+		for _, z := range g.zero {
+			for j := max(z[0], fs); j < min(z[1], fs+int64(len(b))); j++ {
+				junk(int(j - fs))
+			}
+		}
+	default:
+		return fmt.Errorf("unknown pre kind %q", kind)
+	}
+	path := g.path(dataDir, o)
+	if err := os.MkdirAll(filepath.Dir(path), 0o750); err != nil {
+		return err
+	}
+	return os.WriteFile(path, b, 0o640)
 }
 
 func layoutByName(name string, unit int) (vh.Layout, bool) {
@@ -60,12 +122,37 @@ func layoutByName(name string, unit int) (vh.Layout, bool) {
 	return vh.Layout{}, false
 }
 
-func newGeo(layout string, unit int, seed int64) (*geo, error) {
-	l, ok := layoutByName(layout, unit)
-	if !ok {
-		return nil, fmt.Errorf("unknown layout %q", layout)
+// zeroLayout returns the layouts that contain all-zero DATA pieces (whole file of zeros, zero run aligned to a
+// piece, zeros up to the end incl. the short last piece, zero piece spanning two files) and their zero ranges.
+func zeroLayout(name string, unit int) (vh.Layout, [][2]int64, bool) {
+	u := int64(unit)
+	switch name {
+	case "zfile":
+		return vh.Layout{Name: name, PieceLen: 2 * unit, Files: []vh.FileSpec{{Path: []string{"a"}, Length: 2 * u}, {Path: []string{"z"}, Length: 2 * u},
+			{Path: []string{"c"}, Length: u / 2}}}, [][2]int64{{2 * u, 4 * u}}, true
+	case "zrun":
+		return vh.Layout{Name: name, PieceLen: 2 * unit, Files: []vh.FileSpec{{Length: 5*u + u/2}}}, [][2]int64{{2 * u, 4 * u}}, true
+	case "zend":
+		return vh.Layout{Name: name, PieceLen: 2 * unit, Files: []vh.FileSpec{{Length: 4*u + 100}}}, [][2]int64{{2 * u, 4*u + 100}}, true
+	case "zspan":
+		return vh.Layout{Name: name, PieceLen: 2 * unit, Files: []vh.FileSpec{{Path: []string{"a"}, Length: 3 * u}, {Path: []string{"d", "b"}, Length: 2*u + 7}}},
+			[][2]int64{{2 * u, 4 * u}}, true
 	}
-	g := &geo{tor: vh.Build(l, seed, nil, nil), ord: map[int]int{}}
+	return vh.Layout{}, nil, false
+}
+
+func newGeo(layout string, unit int, seed int64) (*geo, error) {
+	g := &geo{ord: map[int]int{}}
+	if zl, zr, ok := zeroLayout(layout, unit); ok {
+		g.tor = vh.BuildZero(zl, seed, zr)
+		g.zero = zr
+	} else {
+		l, ok := layoutByName(layout, unit)
+		if !ok {
+			return nil, fmt.Errorf("unknown layout %q", layout)
+		}
+		g.tor = vh.Build(l, seed, nil, nil)
+	}
 	for i, f := range g.tor.Files {
 		if f.Pad {
 			continue
@@ -490,6 +577,12 @@ type Scenario struct {
 	Unit   int    `json:"unit"`
 	Seed   int64  `json:"seed"`
 	Runs   []Run  `json:"runs"`
+	Pre    []Pre  `json:"pre"` // data files that exist before the torrent is added
+}
+
+type Pre struct {
+	F    int    `json:"f"` // file ordinal, -1 = every file
+	Kind string `json:"kind"`
 }
 
 type machErr struct{ s string }
@@ -869,8 +962,10 @@ func (r *runner) life(ri int, run Run, fresh bool) error {
 				if r.haveInit < 0 {
 					r.haveInit = len(r.have)
 				}
-				if !fresh {
-					r.abs(map[string]any{"ev": "settled", "have": r.have, "known": r.known, "verified": r.verified, "status": e["status"]})
+				{
+					// the durable content at this moment, read by the parent (nothing is being written: no peer yet)
+					class, exist := r.g.classes(r.dataDir())
+					r.abs(map[string]any{"ev": "settled", "have": r.have, "known": r.known, "verified": r.verified, "status": e["status"], "class": class, "exist": exist})
 				}
 				if run.Mode == "leech" {
 					addr := fmt.Sprintf("127.0.0.1:%d", num(e, "port"))
@@ -1077,6 +1172,21 @@ func runScenario(sc Scenario, work string, slot int) (out []map[string]any, reac
 		copy(fo, g.fo)
 		r.abs(map[string]any{"ev": "init", "sid": sc.ID, "np": g.tor.NumPieces, "nf": len(g.files), "fo": fo, "layout": sc.Layout})
 		err = nil
+		if len(sc.Pre) > 0 {
+			rng := rand.New(rand.NewSource(sc.Seed ^ 0x5eed))
+			for _, pr := range sc.Pre {
+				for o := range g.files {
+					if pr.F == -1 || pr.F == o {
+						if err2 := g.plant(r.dataDir(), o, pr.Kind, rng); err2 != nil {
+							os.RemoveAll(dir)
+							return nil, nil, err2
+						}
+					}
+				}
+			}
+			class, exist := g.classes(r.dataDir())
+			r.abs(map[string]any{"ev": "plant", "class": class, "exist": exist})
+		}
 		for ri, run := range sc.Runs {
 			if len(run.Del) > 0 {
 				r.delete(run.Del)
@@ -1192,12 +1302,11 @@ func probeMain(args []string) {
 	for _, fi := range g.files {
 		flen = append(flen, g.tor.Files[fi].Length)
 	}
-	b, _ := json.Marshal(map[string]any{"layout": *layout, "unit": *unit, "np": g.tor.NumPieces, "nf": len(g.files), "fo": g.fo, "nw": nw, "flen": flen})
+	b, _ := json.Marshal(map[string]any{"layout": *layout, "unit": *unit, "np": g.tor.NumPieces, "nf": len(g.files), "fo": g.fo, "nw": nw, "flen": flen, "zp": g.zeroPieces()})
 	fmt.Println(string(b))
 }
 
 func main() {
-	_ = rand.Int
 	if len(os.Args) < 2 {
 		fmt.Fprintln(os.Stderr, "usage: c05 run|child|probe ...")
 		os.Exit(2)
